@@ -22,6 +22,8 @@ const P: &str = "C11";
 enum Step {
 	OpenWs,
 	HttpCall,
+	/// an HTTP call to a slow handler whose client resets the connection while the handler runs
+	HttpCallAborted,
 	WsCall(usize),
 	CloseWs(usize),
 	AbortWs(usize),
@@ -30,6 +32,8 @@ enum Step {
 	/// an upgrade request the server must refuse (bad version)
 	BadUpgrade,
 	Settle(u32),
+	/// the peer of a session goes silent (stops reading, hence sends no pongs) but keeps its socket open
+	SilenceWs(usize),
 }
 
 struct Session {
@@ -41,6 +45,8 @@ struct Session {
 	/// stamp at which the peer started to close / aborted
 	ending: Option<u64>,
 	frames: Arc<Mutex<Vec<Value>>>,
+	silent: Arc<tokio::sync::Notify>,
+	silenced_at: Option<tokio::time::Instant>,
 }
 
 #[derive(Debug, Clone)]
@@ -57,24 +63,30 @@ pub async fn scenario() {
 	let entry = *rt::pick("entry", &[Entry::Default, Entry::Tower, Entry::Default]);
 	let max = rt::draw("max_conns", 4);
 	// a small stream buffer makes the server's handshake response block until the peer reads (or goes away)
-	let cap = *rt::pick("stream_cap", &[0usize, 0, 32, 100]);
+	let ping_mode = rt::chance("ping_mode", 1, 5);
+	// (with pings on, the stream is unbounded: a silent peer behind a clogged write path keeps the server's send
+	// task in a socket write that only a transport error can end; the simulated stream never errors by itself, so
+	// that case is not judged)
+	let cap = if ping_mode { 0 } else { *rt::pick("stream_cap", &[0usize, 0, 32, 100]) };
 	let frag = if rt::chance("frag", 1, 4) { Frag { short: true, latency_ms: 2, cap } } else { Frag { cap, ..Frag::default() } };
 	let n_steps = rt::draw_range("n_steps", 4, 20);
 	let mut steps = Vec::new();
 	for _ in 0..n_steps {
 		steps.push(match rt::draw("step", 20) {
 			0..=5 => Step::OpenWs,
-			6..=8 => Step::HttpCall,
+			6 | 7 => Step::HttpCall,
+			8 => Step::HttpCallAborted,
 			9 | 10 => Step::WsCall(rt::draw("s", 4) as usize),
 			11 | 12 => Step::CloseWs(rt::draw("s", 4) as usize),
 			13..=15 => Step::AbortWs(rt::draw("s", 4) as usize),
 			16 => Step::AbortMidHandshake,
 			17 => Step::BadUpgrade,
-			_ => Step::Settle(rt::draw_range("ms", 1, 50)),
+			18 if ping_mode => Step::SilenceWs(rt::draw("s", 4) as usize),
+			_ => Step::Settle(if ping_mode && rt::chance("long_settle", 1, 3) { 5000 } else { rt::draw_range("ms", 1, 50) }),
 		});
 	}
-	rt::event("plan", format!("entry={entry:?} max_connections={max} frag={frag:?} steps={steps:?}"));
-	let mut world = World::new(SrvCfg { entry, frag, max_conns: max, auto_sub: true, ..Default::default() });
+	rt::event("plan", format!("entry={entry:?} max_connections={max} frag={frag:?} ping_mode={ping_mode} steps={steps:?}"));
+	let mut world = World::new(SrvCfg { entry, frag, max_conns: max, auto_sub: true, ping: ping_mode, ..Default::default() });
 	world.start().await;
 	let mut sessions: Vec<Session> = Vec::new();
 	let attempts: Arc<Mutex<Vec<Attempt>>> = Arc::default();
@@ -96,13 +108,25 @@ pub async fn scenario() {
 						let opened = rt::event("ws-open", format!("session {}", sessions.len()));
 						let frames: Arc<Mutex<Vec<Value>>> = Arc::default();
 						let f2 = frames.clone();
+						let silent = Arc::new(tokio::sync::Notify::new());
+						let s2 = silent.clone();
 						rt::spawn("ws-reader", async move {
-							while let Some(f) = world::ws_recv(&mut rx).await {
-								f2.lock().unwrap().push(serde_json::from_slice(&f).unwrap_or(Value::Null));
+							loop {
+								tokio::select! {
+									biased;
+									_ = s2.notified() => {
+										// silent for good: neither reads nor answers pings, but keeps the socket
+										std::future::pending::<()>().await;
+									}
+									f = world::ws_recv(&mut rx) => {
+										let Some(f) = f else { break };
+										f2.lock().unwrap().push(serde_json::from_slice(&f).unwrap_or(Value::Null));
+									}
+								}
 							}
 						});
 						attempts.lock().unwrap().push(Attempt { kind: "ws", start, refused: None, done: opened, nonce: 0 });
-						sessions.push(Session { tx: Some(tx), ctl, attempt_start: start, opened, ending: None, frames });
+						sessions.push(Session { tx: Some(tx), ctl, attempt_start: start, opened, ending: None, frames, silent, silenced_at: None });
 					}
 					Ok(WsOpen::Rejected(code)) => {
 						let done = rt::event("ws-rejected", format!("{code}"));
@@ -123,7 +147,8 @@ pub async fn scenario() {
 				inflight.lock().unwrap().push((start, None));
 				http_tasks.push(rt::spawn("http-peer", async move {
 					let Ok(mut p) = world::http_handshake(end).await else { return };
-					let msg = format!("{{\"jsonrpc\":\"2.0\",\"id\":{n},\"method\":\"aecho\",\"params\":[{n}]}}");
+					let method = if n % 3 == 0 { "slow" } else { "aecho" };
+					let msg = format!("{{\"jsonrpc\":\"2.0\",\"id\":{n},\"method\":\"{method}\",\"params\":[{n}]}}");
 					if let Ok(r) = p.post(msg.into_bytes(), Some("application/json")).await {
 						let done = rt::event("http-reply", format!("{n} {}", r.status));
 						attempts.lock().unwrap().push(Attempt { kind: "http", start, refused: if r.status == 200 { None } else { Some(r.status) }, done, nonce: n });
@@ -133,12 +158,24 @@ pub async fn scenario() {
 					}
 				}));
 			}
+			Step::HttpCallAborted => {
+				rt::event("dir-http-call-aborted", format!("{n}"));
+				rt::probe("fault.http_abort_mid_call");
+				let (end, ctl) = world.connect(&format!("httpabort{n}"));
+				raws.push((rt::now_stamp(), ctl.clone()));
+				http_tasks.push(rt::spawn("http-peer", async move {
+					let Ok(mut p) = world::http_handshake(end).await else { return };
+					let msg = format!("{{\"jsonrpc\":\"2.0\",\"id\":{n},\"method\":\"slow\",\"params\":[{n}]}}");
+					let _ = tokio::time::timeout(Duration::from_millis(rt::draw_range("abort_ms", 1, 100) as u64), p.post(msg.into_bytes(), Some("application/json"))).await;
+					ctl.reset();
+				}));
+			}
 			Step::WsCall(s) => {
 				let k = sessions.len();
 				if k > 0 {
 					if let Some(tx) = sessions[s % k].tx.as_mut() {
 						let msg = format!("{{\"jsonrpc\":\"2.0\",\"id\":{n},\"method\":\"echo\",\"params\":[{n}]}}");
-						let _ = world::ws_send(tx, msg.as_bytes(), false).await;
+						let _ = tokio::time::timeout(Duration::from_millis(200), world::ws_send(tx, msg.as_bytes(), false)).await;
 					}
 				}
 			}
@@ -148,9 +185,9 @@ pub async fn scenario() {
 					let sess = &mut sessions[s % k];
 					if let Some(mut tx) = sess.tx.take() {
 						let st = rt::event(if matches!(step, Step::CloseWs(_)) { "dir-close-ws" } else { "dir-abort-ws" }, format!("session {}", s % k));
-						sess.ending = Some(st);
+						sess.ending.get_or_insert(st);
 						if matches!(step, Step::CloseWs(_)) {
-							let _ = tx.close().await;
+							let _ = tokio::time::timeout(Duration::from_millis(200), tx.close()).await;
 						} else {
 							rt::probe("fault.peer_abort");
 							sess.ctl.reset();
@@ -179,6 +216,17 @@ pub async fn scenario() {
 				}
 				drop(io);
 			}
+			Step::SilenceWs(s) => {
+				let k = sessions.len();
+				if k > 0 && sessions[s % k].tx.is_some() && sessions[s % k].silenced_at.is_none() {
+					rt::event("dir-silence-ws", format!("session {}", s % k));
+					rt::probe("fault.silent_peer");
+					sessions[s % k].silent.notify_one();
+					sessions[s % k].silenced_at = Some(tokio::time::Instant::now());
+					// from the model's point of view the session may end any time from now on
+					sessions[s % k].ending = Some(rt::now_stamp());
+				}
+			}
 			Step::Settle(ms) => {
 				tokio::time::sleep(Duration::from_millis(*ms as u64)).await;
 				settles.push(rt::event("settled", ""));
@@ -187,9 +235,19 @@ pub async fn scenario() {
 		rt::yield_n(rt::draw("between", 3)).await;
 	}
 	// ---- the limit can be reached again after everything has ended ----
+	// silent peers keep their sockets open: the server must close those sessions itself (inactivity) and free
+	// their slots; everything else is aborted by the peer
+	let mut kept_silent = Vec::new();
 	for s in sessions.iter_mut() {
+		if s.silenced_at.is_some() {
+			if let Some(tx) = s.tx.take() {
+				kept_silent.push(tx);
+			}
+			continue;
+		}
 		if let Some(tx) = s.tx.take() {
-			s.ending = Some(rt::event("dir-abort-ws", "final"));
+			let st = rt::event("dir-abort-ws", "final");
+			s.ending.get_or_insert(st);
 			s.ctl.reset();
 			drop(tx);
 		}
@@ -197,7 +255,12 @@ pub async fn scenario() {
 	for t in http_tasks {
 		let _ = tokio::time::timeout(Duration::from_secs(30), t).await;
 	}
-	rt::quiesce().await;
+	if ping_mode {
+		// pings keep timers alive for ever: wait a bounded time instead (well beyond the inactivity limit)
+		tokio::time::sleep(Duration::from_secs(15)).await;
+	} else {
+		rt::quiesce().await;
+	}
 	let refill_start = rt::event("refill", format!("max={max}"));
 	let mut refill: Vec<(WsTx, Ctl)> = Vec::new();
 	for i in 0..=max {
@@ -276,9 +339,28 @@ pub async fn scenario() {
 		}
 	}
 	let _ = alive_ws_at(0);
+	// HTTP handlers that ran to completion: never more than max of them at once (an HTTP request counts while it is
+	// processed). Handlers cancelled together with their connection never complete and are not counted.
+	let spans: Vec<(u64, u64, String)> = log
+		.mw
+		.iter()
+		.filter(|e| e.kind == "call-start" && (e.method == "aecho" || e.method == "slow"))
+		.filter_map(|st| log.mw.iter().find(|e| e.kind == "call-end" && e.id == st.id && e.method == st.method && e.stamp > st.stamp).map(|en| (st.stamp, en.stamp, st.id.clone())))
+		.collect();
+	for (s0, _e0, id0) in &spans {
+		let running = spans.iter().filter(|(s1, e1, id1)| id1 != id0 && s1 < s0 && e1 > s0).count();
+		let ws_open = sessions.iter().filter(|x| x.opened < *s0 && x.ending.is_none_or(|e| e > *s0)).count();
+		if running + ws_open + 1 > max as usize {
+			rt::violate(P, "limit-exceeded", format!("http-handlers-overlap:{entry:?}"), format!("HTTP call {id0} started at #{s0} while {running} other HTTP handler(s) were running and {ws_open} WebSocket session(s) were open (max_connections={max})"));
+		}
+	}
 	if nontrivial {
 		rt::probe("nontrivial");
 	}
 	drop(log);
 	drop(refill);
+	drop(kept_silent);
+	for s in sessions.iter() {
+		s.ctl.reset();
+	}
 }
